@@ -109,8 +109,13 @@ def check_surface(case, ctx):
         got = T.evaluate_single((float(us[1]), float(us[0])))
         ctx.check(ref.vec_close(got, r, sc), "transpose-evaluation", "T(v,u) = %r but S(u,v) = %r at (u,v) = %r" % (got, ref.fl(r), [float(x) for x in us]))
     o3 = build.make(d)
+    if case["u"] % 2:
+        _ = o3.ctrlpts, (o3.weights if o3.rational else None), o3.ctrlpts2d          # the views were looked at before
     o3.transpose()
     ctx.check(build.snapshot(o3) == build.snapshot(T), "transpose-method", "Surface.transpose() differs from operations.transpose")
+    ctx.check(_eq_pts([list(q) for q in o3.ctrlpts], [list(q) for q in T.ctrlpts]) and (not o3.rational or list(o3.weights) == list(T.weights))
+              and all(_eq_pts([o3.ctrlpts2d[v][u]], [g[u][v]]) for u in range(nu) for v in range(nv)), "transpose-method-views",
+              "after Surface.transpose() the control point views are not those of the transposed net")
     # flip
     Fl = operations.flip(obj, inplace=False)
     gF = Fl.ctrlpts2d
@@ -216,7 +221,7 @@ def check_volume(case, ctx):
 @st.composite
 def _sweep_cases(draw, tier):
     d = draw(gen.spline(kinds=("curve", "surface"), dims=(3,), max_p=3, max_extra=3, different=True, distinct=True))
-    return {"defn": d, "vec": [draw(st.integers(-32, 32)) / 8.0 for _ in range(3)]}
+    return {"defn": d, "vec": [draw(st.integers(-32, 32)) / 8.0 for _ in range(3)], "again": draw(st.booleans())}
 
 
 def check_sweep(case, ctx):
@@ -225,10 +230,21 @@ def check_sweep(case, ctx):
     if not any(vec):
         vec = [0.0, 0.0, 1.0]
     obj = build.make(d)
-    R = build.exact_from(d, obj)
-    before = build.snapshot(obj)
     _nt(ctx, d)
     ctx.nt(True, "sweep-" + d["kind"])
+    _sweep_once(ctx, d, obj, vec)
+    if case.get("again"):
+        # the same object, moved and stretched in place, swept along the same vector once more
+        d2 = dict(d)
+        d2["P"] = [[c * 2.0 + 0.5 * (i + 1) for i, c in enumerate(q)] for q in d["P"]]
+        obj.ctrlpts = [list(q) for q in d2["P"]]
+        ctx.label("swept-again-after-edit")
+        _sweep_once(ctx, d2, obj, vec)
+
+
+def _sweep_once(ctx, d, obj, vec):
+    R = build.exact_from(d, obj)
+    before = build.snapshot(obj)
     sw = sweeping.sweep_vector(obj, list(vec))
     ctx.check(build.snapshot(obj) == before, "sweep-modified-input", "sweep_vector modified its input")
     pdim = len(d["degree"])
